@@ -74,6 +74,14 @@ def regex_set(pattern):
             chars.add(arg)
         elif op == sp.RANGE:
             chars |= set(range(arg[0], arg[1] + 1))
+        elif op == sp.CATEGORY:
+            # \\w \\d \\s and their complements in a str pattern compiled without re.ASCII: Unicode semantics
+            esc = {sp.CATEGORY_WORD: r"\w", sp.CATEGORY_NOT_WORD: r"\W", sp.CATEGORY_DIGIT: r"\d", sp.CATEGORY_NOT_DIGIT: r"\D",
+                   sp.CATEGORY_SPACE: r"\s", sp.CATEGORY_NOT_SPACE: r"\S"}.get(arg)
+            if esc is None:
+                raise AnalysisError("unsupported character category %s" % (arg,))
+            one = re.compile(esc)
+            chars |= {c for c in range(BMP) if one.fullmatch(chr(c))}
         else:
             raise AnalysisError("unsupported class item %s" % (op,))
     return chars, negate
